@@ -163,7 +163,8 @@ PROPS["C15"] = dict(
           "block to the tip = best chain, every confirmed transaction of the store sits in a best-chain block containing it, CalculateBalance(0,1,2,6) and the status of every "
           "relevant transaction equal the harness ledger; repeated after a final reopen. Non-trivial = reorg of depth >= 2 touching a block with a wallet transaction, or a reorg while stopped."),
     assumptions=_WALLET_ASSUME,
-    units=[dict(name="tip", run="^TestC15TipFollowsBackend$", quick=500, thorough=2500, shards_quick=2, shards_thorough=16, timeout=1500)],
+    units=[dict(name="tip", run="^TestC15TipFollowsBackend$", quick=500, thorough=2500, shards_quick=2, shards_thorough=16, timeout=1500),
+           dict(name="regress", kind="plain", run="^TestC15Regress", quick=None, thorough=None, timeout=300)],
 )
 
 PROPS["C11"] = dict(pkg="c11", level="exploration",
